@@ -581,6 +581,93 @@ func ruleALBump(c *Ctx) {
 		}
 	}
 	c.Check(okClr, key+"/clear", P.pos(ret.Pos()), "typedmemclr(ptyp, ptr) on the returned pointer dominates the return", "the slot handed out is not cleared with its own type first: a recycled bank leaks values from an earlier record")
+	// no pointer into a growable arena table outlives the call: an element address of a slice field that is
+	// appended to somewhere must not be stored in a field or a package variable (append may move the table)
+	c.Rule("AL-STALE", "no address of an element of a slice that is grown by append is kept in a field or package variable: after the slice is reallocated such a pointer refers to a dead copy whose counters diverge from the live entry", 1)
+	{
+		// slice fields that are appended to
+		grown := map[string]bool{}
+		for _, fn := range P.ModuleFuncs() {
+			for _, b := range fn.Blocks {
+				for _, in := range b.Instrs {
+					st, ok := in.(*ssa.Store)
+					if !ok {
+						continue
+					}
+					fa, ok := st.Addr.(*ssa.FieldAddr)
+					if !ok {
+						continue
+					}
+					if call, ok := st.Val.(*ssa.Call); ok && isBuiltinCall(call, "append") {
+						grown[typeKey(fa.X.Type())+"."+fieldName(fa.X.Type(), fa.Field)] = true
+					}
+				}
+			}
+		}
+		elemOfGrown := func(v ssa.Value) (string, bool) {
+			for i := 0; i < 8; i++ {
+				switch x := v.(type) {
+				case *ssa.FieldAddr:
+					v = x.X
+					continue
+				case *ssa.Phi:
+					for _, e := range x.Edges {
+						if _, isNil := e.(*ssa.Const); !isNil {
+							v = e
+						}
+					}
+					if v == ssa.Value(x) {
+						return "", false
+					}
+					continue
+				case *ssa.IndexAddr:
+					if ld, ok := x.X.(*ssa.UnOp); ok && ld.Op == token.MUL {
+						if fa, ok := ld.X.(*ssa.FieldAddr); ok {
+							k := typeKey(fa.X.Type()) + "." + fieldName(fa.X.Type(), fa.Field)
+							return k, grown[k]
+						}
+					}
+					return "", false
+				}
+				return "", false
+			}
+			return "", false
+		}
+		nGrown := 0
+		for k := range grown {
+			if strings.Contains(k, "ResourceBank") {
+				nGrown++
+			}
+		}
+		bad := 0
+		for _, fn := range P.ModuleFuncs() {
+			n := 0
+			for _, b := range fn.Blocks {
+				for _, in := range b.Instrs {
+					st, ok := in.(*ssa.Store)
+					if !ok {
+						continue
+					}
+					if _, isPtr := st.Val.Type().Underlying().(*types.Pointer); !isPtr {
+						continue
+					}
+					k, isEl := elemOfGrown(st.Val)
+					if !isEl {
+						continue
+					}
+					switch st.Addr.(type) {
+					case *ssa.FieldAddr, *ssa.Global, *ssa.IndexAddr:
+						n++
+						bad++
+						c.Bad(fmt.Sprintf("%s/kept-element-address#%d", fnKey(fn), n), P.pos(st.Pos()), "the address of an element of "+k+" is kept beyond the call although that slice is grown by append: once it is reallocated the pointer refers to a dead copy, and allocations through it hand out slots that are already in use")
+					}
+				}
+			}
+		}
+		if bad == 0 {
+			c.Check(nGrown > 0, "avro.ResourceBank/element-addresses", P.pos(al.Pos()), fmt.Sprintf("no element address of a grown slice is stored in a field or package variable (%d grown slice fields in the bank)", nGrown), "the bank's arena table is not a slice grown by append any more (rule needs re-reading)")
+		}
+	}
 	// Close
 	c.Rule("AL-CLOSE", "", 0)
 	cl := P.Method(rbT, "Close")
